@@ -93,7 +93,10 @@ func runRapid(t *testing.T, check string, n int, prop func(t *rapid.T)) {
 	must(flag.Set("rapid.seed", strconv.FormatUint(rapidSeed(check), 10)))
 	must(flag.Set("rapid.nofailfile", "true"))
 	must(flag.Set("rapid.shrinktime", tierV("20s", "60s")))
-	rapid.Check(t, prop)
+	rapid.Check(t, func(rt *rapid.T) {
+		tick() // every generated case is progress for the watchdog, whatever the check does inside
+		prop(rt)
+	})
 }
 
 func must(err error) {
